@@ -402,6 +402,8 @@ def py_eval(e, env):
             raise Stuck()
         return r
     vs = [py_eval(c, env) for c in ch]
+    if any(v[1] is None for v in vs):
+        raise Stuck()
     if t[0] == "un":
         v = vs[0]
         if t[1] == "neg" and v[0] == "int":
@@ -443,6 +445,8 @@ def py_eval(e, env):
 
 
 def py_binary(op, rhs, l, r):
+    if l[1] is None or r[1] is None:
+        raise Stuck()        # an operand whose value this oracle does not compute (float // % **)
     if op == "+" and l[0] == "str" and r[0] == "str":
         return ("str", l[1] + r[1])
     if op in ("in", "not in"):
@@ -524,14 +528,8 @@ def idents(e):
     return [x[1] for x in subexprs(e) if x[0] == "id"]
 
 
-def sfrag(e):
-    """the fragment on which compile-time diagnostics and run-time exceptions coincide (Model.v sfrag)"""
-    for x in subexprs(e):
-        if x[0] == "node":
-            t = x[1]
-            if not (t[0] in ("un", "index", "slice") or (t[0] == "bin" and t[1] in ("+", "in", "not in"))):
-                return False
-    return True
+def tag_strict(t):
+    return t[0] in ("un", "index", "slice") or (t[0] == "bin" and t[1] in ("+", "in", "not in"))
 
 
 class Oracle:
@@ -641,6 +639,15 @@ class Classes:
         seen.add(n)
         e = self.decl[n]
         return self.unvalued_bound(e) or any(self.tainted(m, seen) for m in idents(e))
+
+    def vfrag(self, e):
+        """Model.v vfrag: strict operators only, every sub-expression's value known, no unvalued slice bound"""
+        for x in subexprs(e):
+            if x[0] == "id" and not self.valued(x):
+                return False
+            if x[0] == "node" and not (tag_strict(x[1]) and self.valued(x)):
+                return False
+        return not self.unvalued_bound(e)
 
     def lazy_rhs_raises(self, e):
         """Known_C06_eager_and_or: an index/slice inside the right operand of and/or"""
@@ -774,6 +781,9 @@ class Gen:
             ann = ("fdict", et, vt) if r.random() < 0.7 else None
             return ann, node(("dict",), *ch)
         ch = [self.expr(et if r.random() < 0.93 else r.choice(["int", "str"]), me, depth) for _ in range(n)]
+        if kind == "set" and not ch:
+            kind = "dict"       # `{}` is the empty dict
+            return None, node(("dict",))
         ann = ("f" + kind, et) if r.random() < 0.7 else None
         return ann, node((kind,), *ch)
 
@@ -875,7 +885,7 @@ def rust_eval(x, consts):
     """value of an emitted const initializer (rexpr tree of harness c06), Rust const-evaluation rules"""
     k = x[0]
     if k == "int":
-        return ("int", int(x[1]))
+        return ("float", float(x[1])) if (len(x) > 2 and x[2] == "f64") else ("int", int(x[1]))
     if k == "float":
         return ("float", float(x[1]))
     if k == "bool":
@@ -1004,9 +1014,11 @@ def judge(prog, out, chk, findings, stats):
                         fails.append({"what": "type", "const": cname(n), "published_type": c["ty"], "run_time": repr(pv[1])})
             # (3) a run-time IndexError / ValueError that the compile-time evaluation did not report
             if pv[0] == "raise" and pv[1] in ("IndexError", "ValueError"):
-                if sfrag(e) and not tainted and all(cls.valued(("id", m)) for m in idents(e)):
+                if cls.vfrag(e) and not tainted:
                     fails.append({"what": "missed-error", "const": cname(n), "run_time": pv[1], "published": c})
-                elif "error-operand-unvalued" in known or "slice-bound-unvalued" in known:
+                elif tainted and "slice-bound-unvalued" in known:
+                    stats["known:slice-bound-unvalued"] += 1
+                elif not cls.vfrag(e) and "error-operand-unvalued" in known:
                     stats["known:error-operand-unvalued"] += 1
                 else:
                     fails.append({"what": "missed-error", "const": cname(n), "run_time": pv[1], "published": c})
@@ -1097,7 +1109,7 @@ def run(chk):
     for n in (1, 2, 3):
         for p in graph_programs(n, all_graphs(n)):
             progs.append(("graph%d" % n, p))
-    n4 = 600 if quick else 6000
+    n4 = 350 if quick else 6000
     pairs4 = [(i, j) for i in range(4) for j in range(4)]
     for _ in range(n4):
         dens = rng.choice([0.1, 0.2, 0.3, 0.5])
@@ -1107,7 +1119,7 @@ def run(chk):
         for _ in range(3000):
             dens = rng.choice([0.05, 0.1, 0.2])
             progs.append(("graph6", graph_programs(6, [{p for p in pairs6 if rng.random() < dens}])[0]))
-    for _ in range(900 if quick else 12000):
+    for _ in range(650 if quick else 12000):
         progs.append(("random", Gen(rng, rng.randint(1, 6)).program()))
     plist = [p for _, p in progs]
 
@@ -1128,7 +1140,11 @@ def run(chk):
         if out.get("parse") != "ok":
             stats["parse_rejected"] += 1
             if out.get("parse") == "panic":
-                fails.append({"what": "panic", "program": src_prog(prog), "message": out.get("message")})
+                huge = any(x[0] == "lit" and x[1] == "int" and x[2] > I64_MAX - 64 for _, _, e in prog for x in subexprs(e))
+                if "overflow" in str(out.get("message")) and huge:
+                    stats["c05_slice_step_overflow_at_compile_time"] = stats.get("c05_slice_step_overflow_at_compile_time", 0) + 1
+                else:
+                    fails.append({"what": "panic", "program": src_prog(prog), "message": out.get("message")})
             else:
                 corr_bad.append({"program": src_prog(prog), "why": "generated program does not parse", "impl": out})
             continue
@@ -1157,7 +1173,7 @@ def run(chk):
             fails.append(f)
 
     # ---- emission: static-str folding and numeric/bool const items
-    fprogs = fold_programs(rng, 250 if quick else 3000)
+    fprogs = fold_programs(rng, 200 if quick else 3000)
     fimpl = run_impl(binary, fprogs, emit=True)
     fterms = ["[" + "; ".join("(%d, %s)" % (n, coq_expr(e)) for n, _, e in p) + "]" for p in fprogs]
     fmodel = vlib.coq_eval(REQ, "sdecls", "render_fold", fterms, shard=150, tag="c06fold") if model_ok else None
@@ -1270,8 +1286,142 @@ def run(chk):
 
 
 # ----------------------------------------------------------------------------- thorough: real cargo
-def build_tier(chk, rng, stats, fails):
-    pass
+class BuildGen:
+    """programs inside the fragment whose consts rustc accepts as const items: int/float/bool literals, const
+    references, unary - / not (on atoms), + - * on numbers, numeric comparisons, and/or, `str` literals and one `+`
+    of literals / str consts.  (`/ // % **`, str comparisons, `in`, index, slice and frozen collections either emit
+    non-const calls or are rejected by the emitter: C02.)"""
+
+    def __init__(self, rng, n):
+        self.rng, self.n = rng, n
+        self.types = {}
+
+    def atom(self, ty, k):
+        r = self.rng
+        cands = [j for j in range(k) if self.types[j] == ty]
+        if cands and r.random() < 0.5:
+            return ("id", r.choice(cands))
+        if ty == "int":
+            return lit("int", r.randint(0, 40))
+        if ty == "float":
+            return lit("float", fbits(r.choice([0.0, 0.5, 1.0, 1.5, 2.0, 2.5, 3.25, 10.0, 100.125, 0.1])))
+        if ty == "bool":
+            return lit("bool", r.random() < 0.5)
+        return lit("str", r.choice([x for x in STR_POOL if "\\" not in x]))
+
+    def expr(self, ty, k, depth):
+        r = self.rng
+        if depth <= 0 or r.random() < 0.3:
+            return self.atom(ty, k)
+        if ty == "int" or ty == "float":
+            if r.random() < 0.2:
+                a = self.atom(ty, k)
+                return node(("un", "neg"), a)
+            op = r.choice(["+", "-", "*"])
+            lt = ty if ty == "int" else r.choice(["int", "float"])
+            rt = ty if (ty == "int" or lt == "int") else r.choice(["int", "float"])
+            l, rr = self.expr(lt, k, depth - 1), self.expr(rt, k, depth - 1)
+            ll, rl = operand_levels(("bin", op))
+            l = l if level(l) >= ll else self.atom(lt, k)
+            rr = rr if level(rr) >= rl else self.atom(rt, k)
+            return node(("bin", op), l, rr)
+        if ty == "bool":
+            x = r.random()
+            if x < 0.2:
+                return node(("un", "not"), self.atom("bool", k))
+            if x < 0.55:
+                op = r.choice(["and", "or"])
+                l, rr = self.expr("bool", k, depth - 1), self.expr("bool", k, depth - 1)
+                ll, rl = operand_levels(("bin", op))
+                l = l if level(l) >= ll else self.atom("bool", k)
+                rr = rr if level(rr) >= rl else self.atom("bool", k)
+                return node(("bin", op), l, rr)
+            # same-kind operands without int->float promotion: `x as f64 < y` does not parse as Rust
+            # (a C02 defect of the emitter, identical for consts and function bodies)
+            op = r.choice(CMP)
+            t1 = r.choice(["int", "float"])
+            if t1 == "int":
+                l, rr = self.expr("int", k, depth - 1), self.expr("int", k, depth - 1)
+            else:
+                def pure():
+                    if r.random() < 0.5:
+                        return self.atom("float", k)
+                    return node(("bin", r.choice(["+", "-", "*"])), self.atom("float", k), self.atom("float", k))
+                l, rr = pure(), pure()
+            l = l if level(l) >= L_ADD else self.atom(t1, k)
+            rr = rr if level(rr) >= L_ADD else self.atom(t1, k)
+            return node(("bin", op), l, rr)
+        if r.random() < 0.6:
+            return node(("bin", "+"), self.atom("str", k), self.atom("str", k))
+        return self.atom("str", k)
+
+    def program(self):
+        prog = []
+        for k in range(self.n):
+            for _ in range(20):
+                ty = self.rng.choice(["int", "int", "float", "bool", "str"])
+                self.types[k] = ty
+                e = self.expr(ty, k, self.rng.choice([1, 2, 3]))
+                o = Oracle(prog + [(k, ty, e)])
+                v = o.value(k)
+                if v[0] == "val" and v[1][1] is not None and not (ty == "int" and abs(v[1][1]) > 10**9) \
+                        and not (ty == "float" and abs(v[1][1]) > 1e12):
+                    break
+            else:
+                e = self.atom(ty, 0)
+            prog.append((k, ty, e))
+        return prog
+
+
+def build_tier(chk, rng, stats, fails, batches=14, per=28):
+    """the same expression as a `const` and inside a function body, built with real cargo, outputs compared"""
+    binary = vlib.build_harness("debug")
+    root = os.path.join(vlib.BUILD, "c06-proj-%d" % os.getpid())
+    target = os.path.join(vlib.BUILD, "gen-target")
+    stats.update({"build_batches": 0, "build_failed": 0, "build_pairs_compared": 0})
+    try:
+        for b in range(batches):
+            prog = BuildGen(rng, per).program()
+            lines = []
+            for n, a, e in prog:
+                lines.append("const %s: %s = %s" % (cname(n), src_ty(a), src(e)))
+            lines += ["", "def main() -> None:"]
+            for n, a, e in prog:
+                lines += ["    println(%s)" % cname(n), "    println(%s)" % src(e)]
+            text = "\n".join(lines) + "\n"
+            d = os.path.join(root, "b%d" % b)
+            out = json.loads(vlib.run_harness(binary, ["run", "c06"], json.dumps({"src": text, "project": d, "name": "c06batch"}) + "\n"))
+            if out.get("project") != "written":
+                fails.append({"what": "buildable-program-rejected", "program": text, "message": out})
+                continue
+            stats["build_batches"] += 1
+            env = {"CARGO_TARGET_DIR": target}
+            rc, so, se = vlib.sh(["cargo", "build", "--release", "--offline", "--quiet"], cwd=d, env=env, timeout=1800)
+            if rc != 0:
+                stats["build_failed"] += 1
+                chk.notes.append("build tier: batch %d does not build: %s" % (b, se[-600:]))
+                continue
+            rc, so, se = vlib.sh([os.path.join(target, "release", "c06batch")], timeout=60)
+            outl = so.split("\n")
+            orc = Oracle(prog)
+            if rc != 0 or len(outl) < 2 * len(prog):
+                fails.append({"what": "built-program-failed", "program": text, "rc": rc, "stderr": se[-500:]})
+                continue
+            for i, (n, a, e) in enumerate(prog):
+                kc, kf = outl[2 * i], outl[2 * i + 1]
+                stats["build_pairs_compared"] += 1
+                chk.count_case("build:" + cname(n) + text)
+                pv = orc.value(n)[1]
+                want = {"int": lambda: str(pv[1]), "bool": lambda: "true" if pv[1] else "false", "str": lambda: pv[1],
+                        "float": lambda: None}[a]()
+                okf = a != "float" or (float(kc) == pv[1])
+                if kc != kf or (want is not None and kc != want) or not okf:
+                    fails.append({"what": "const-differs-from-function-body", "program": text, "const": cname(n),
+                                  "as_const": kc, "in_function": kf, "python": repr(pv)})
+        if stats["build_batches"] and stats["build_failed"] * 2 > stats["build_batches"]:
+            raise vlib.Infra("C06 build tier: more than half of the batches do not build (see notes)")
+    finally:
+        shutil.rmtree(root, ignore_errors=True)
 
 
 def replay(path):
